@@ -97,6 +97,14 @@ def dispatch (op : String) (args obs : List String) : Outcome :=
          prop := if b == "bad=0" then .ok else .bad (" ; ".intercalate (tags.map fun t => s!"{t} concurrent scenario {scen}: {" ".intercalate (b :: rest)}")),
          branch := s!"conc.{scen}" }
      | _, _ => { corr := .bad "bad-line" })
+  | "WSCONC" =>
+    (match obs with
+     | b :: rest =>
+       let all := " ".intercalate (b :: rest)
+       { corr := .ok,
+         prop := if b == "bad=0" then .ok else .bad s!"C17 concurrent websocket client scenario: {all} ; C15 concurrent websocket client scenario: {all} ; C16 concurrent websocket client scenario: {all}",
+         branch := "wsconc" }
+     | _ => { corr := .bad "bad-line" })
   | "WSG" =>
     (match args, obs with
      | [scen], o :: rest =>
